@@ -774,16 +774,21 @@ def _variant_job(job):
     return p, _base_job(p)
 
 
-def build_jobs(progs, seed, sets_per_prog, chk, sweep_gaps=0, variants=(0.0, 0.0)):
+def build_jobs(progs, seed, sets_per_prog, chk, sweep_gaps=0, variants=(0.0, 0.0, 0)):
     """base lint of every program (parallel), split / at-limit variants, decoration, plans"""
     bases = pool_map(_base_job, progs, procs=8)
-    vjobs = []
+    vjobs, n_elseif = [], 0
     for prog, base in zip(progs, bases):
         if base is None or prog.get("plans"):
             continue
         rv = rng_for(seed, PROP, "variant-sel", prog["id"])
         x = rv.random()
-        if x < variants[0]:
+        # the rare split kind (an `else` | `if` pair exists in few programs) is taken whenever it is there, up to a cap
+        if variants[0] and n_elseif < variants[2] and any(k == "else-if" for f in prog["files"] if f["lang"] != "py"
+                                                           for k, _, _ in E.split_sites(f["lang"], f["text"])):
+            n_elseif += 1
+            vjobs.append((prog, seed, "split"))
+        elif x < variants[0]:
             vjobs.append((prog, seed, "split"))
         elif x < variants[0] + variants[1]:
             vjobs.append((prog, seed, "limit"))
@@ -831,6 +836,14 @@ def build_jobs(progs, seed, sets_per_prog, chk, sweep_gaps=0, variants=(0.0, 0.0
             meta = dict(meta, same_linter=same)
             jobs.append({"prog": prog, "plans": plans, "meta": meta, "same_linter": same,
                          "base": base if not any(pl.base_crlf or pl.base_bom for pl in plans) else None})
+        if not prog.get("plans"):
+            # a dedicated renaming job for every program that has a local related by containment to another identifier
+            rr = rng_for(seed, PROP, "rename-related", prog["id"])
+            rplans = [E.rename_related_plan(i, rr, both=sweep_gaps > 100) for i in infos]
+            if any(pl is not None for pl in rplans):
+                plans = [pl if pl is not None else E.Plan(i) for pl, i in zip(rplans, infos)]
+                jobs.append({"prog": prog, "plans": plans, "same_linter": False, "base": base,
+                             "meta": {"label": "rename-related", "below_header": False, "kinds": ["rename_locals"], "same_linter": False}})
         if sweep_gaps and not prog.get("plans"):
             for fi, info in enumerate(infos):
                 if info.n <= sweep_gaps:
@@ -959,6 +972,13 @@ def run(tier: str, seed: int, replay: str | None = None) -> int:
                 "implementation's tokenizer / count_loc / should_ignore_violation, judged against the Coq model in the VM; and up to 10 candidate blocks "
                 "(windows of 2-5 token lines, preferring those on which a filter fires) per edited Python / TypeScript / JavaScript file through each of "
                 "the four DRY block filters on both versions, judged against Model/EditFilter.v under the claimed vector, each flag off, all off.  "
+                "Program variants (new base programs, 16% of the pool quick / 90% thorough, every program with an `else` | `if` pair first): (split) up to "
+                "three pairs of adjacent tokens of ONE construct put on different lines - `else` | `if` (TS/JS/Rust), `=` | right-hand side, opening "
+                "bracket | first element (also Python) - guarded by an identical parse tree, so that the plans and the gap sweep place blank / comment "
+                "lines BETWEEN the two tokens; (limit) max_nesting_depth / max_methods / max_loc set to a value MEASURED on the program (or one below), "
+                "so that a misjudgement by one flips the verdict.  Renaming: a local whose name is contained in / contains another identifier of the "
+                "file (data / metadata) is always renamed away, and half of the other renamed locals get a fresh name that is a substring / "
+                "superstring of another identifier of the file.  "
                 + RENAME_RULES_NOTE)
     chk.trusted_base += [
         "VALIDATED ONLY, not proved: what CPython ast and tree-sitter make of blank lines, comments, white space, CRLF, U+FEFF and renamed "
@@ -994,7 +1014,7 @@ def run(tier: str, seed: int, replay: str | None = None) -> int:
         if quick:
             docs = [p for p in docs if r0.random() < 0.5]
         progs = corpus_programs() + docs + gen
-    jobs = build_jobs(progs, seed, sets_per_prog, chk, sweep_gaps=90 if quick else 250, variants=(0.0, 0.0) if replay else (0.14, 0.06) if quick else (0.6, 0.3))
+    jobs = build_jobs(progs, seed, sets_per_prog, chk, sweep_gaps=90 if quick else 250, variants=(0.0, 0.0, 0) if replay else (0.10, 0.06, 25) if quick else (0.6, 0.3, 400))
     results = pool_map(run_obs, jobs, procs=8)
     # ---------------------------------------------------------------- observable level
     for job, res in zip(jobs, results):
